@@ -2563,8 +2563,10 @@ fn main() {
 	let n_short: u64 = run.tier.pick(96, 1000);
 	let n_long: u64 = run.tier.pick(24, 192);
 	let n_long_worlds: usize = run.tier.pick(1, 4);
-	let phase_deadline: f64 = run.tier.pick(60.0, 400.0);
-	let wd: u64 = run.tier.pick(300, 900);
+	// caps, not durations (the run lists are fixed): generous, because the same list has taken three times as long when
+	// the host's CPUs were shared
+	let phase_deadline: f64 = run.tier.pick(180.0, 900.0);
+	let wd: u64 = run.tier.pick(480, 1500);
 
 	// long worlds are generated while the short phase runs
 	let long_ok = Mutex::new(true);
